@@ -88,7 +88,7 @@ theorem deliver_core (cfg : Cfg) (hd : cfg.delEarly = false) (st : St) (h : Core
   split
   · rename_i rnow rest sid svc fb at_ reac tmo granted htask
     simp only [TaskOk, htask] at ht
-    obtain ⟨hcur, hfb, hg⟩ := ht
+    obtain ⟨hcur, hfb, hg, _⟩ := ht
     have hglt : granted.getD sid < st.nextSid := by
       cases granted with
       | none => exact h.subsLt _ hcur
@@ -105,7 +105,7 @@ theorem deliver_core (cfg : Cfg) (hd : cfg.delEarly = false) (st : St) (h : Core
         · have h1 := (h.eraseRouted sid).send .sub svc none
           refine ⟨⟨h1.subsNodup, h1.routedNodup, h1.routedSub, h1.subsLt⟩, ?_⟩
           simp only [TaskOk]
-          refine ⟨hcur, fun _ => not_mem_erase_self _ _ h.routedNodup, ?_⟩
+          refine ⟨hcur, fun _ => not_mem_erase_self _ _ h.routedNodup, ?_, fun hf => by cases hf⟩
           intro g hgg
           exact send_granted_lt _ .sub svc none (fun s e => by cases e) g hgg
   · exact ⟨h, ht⟩
